@@ -541,12 +541,62 @@ def _one_round(module_ast, known):
     return done
 
 
+def _inline_properties(module_ast, known):
+    ''' a read-only property the reference tree does not have, whose body is one `return <expression over self>`, is read as
+    that expression wherever `self.<name>` is loaded in the classes of the module (a derived value given a name) '''
+    props = {}
+    for (qual, func, _owner, cls) in _functions_with_qual(module_ast):
+        if cls is None or qual in known:
+            continue
+        if not any(isinstance(d, ast.Name) and d.id == 'property' for d in func.decorator_list) or len(func.decorator_list) != 1:
+            continue
+        body = [st for st in func.body if not (isinstance(st, ast.Expr) and isinstance(st.value, ast.Constant) and isinstance(st.value.value, str))]
+        if len(body) != 1 or not isinstance(body[0], ast.Return) or body[0].value is None or len(func.args.args) != 1:
+            continue
+        expr = body[0].value
+        me = func.args.args[0].arg
+        names = {n.id for n in ast.walk(expr) if isinstance(n, ast.Name)}
+        if any(isinstance(n, (ast.Call, ast.Lambda, ast.Await, ast.Yield, ast.NamedExpr)) for n in ast.walk(expr)) or not names <= {me}:
+            continue
+        if func.name in props:
+            props[func.name] = None      # two classes define it differently: leave alone
+        else:
+            props[func.name] = (expr, me)
+    props = {k: v for (k, v) in props.items() if v is not None}
+    if not props:
+        return 0
+    # a setter / an assignment to the attribute anywhere means it is not a pure derived value
+    for n in ast.walk(module_ast):
+        if isinstance(n, ast.Attribute) and isinstance(n.ctx, (ast.Store, ast.Del)) and n.attr in props:
+            props.pop(n.attr, None)
+    count = 0
+
+    class T(ast.NodeTransformer):
+        def visit_Attribute(self, node):
+            nonlocal count
+            self.generic_visit(node)
+            if isinstance(node.ctx, ast.Load) and node.attr in props and isinstance(node.value, ast.Name) and node.value.id == 'self':
+                (expr, me) = props[node.attr]
+                new = _clone(expr)
+                if me != 'self':
+                    for x in ast.walk(new):
+                        if isinstance(x, ast.Name) and x.id == me:
+                            x.id = 'self'
+                count += 1
+                return ast.copy_location(new, node)
+            return node
+    for (qual, func, _owner, cls) in _functions_with_qual(module_ast):
+        if cls is not None and func.name not in props:
+            T().visit(func)
+    return count
+
+
 def inline_new_helpers(module_ast, known):
     ''' :param known: qualified names of the functions the reference tree has in this module (None: module unknown) '''
     if known is None:
         return 0
     known = set(known)
-    total = 0
+    total = _inline_properties(module_ast, known)
     for _ in range(MAX_ROUNDS):
         n = _one_round(module_ast, known)
         if not n:
